@@ -1,0 +1,10 @@
+//go:build !verif
+// +build !verif
+
+package db
+
+import "github.com/syndtr/goleveldb/leveldb"
+
+// verifC05Write is the disabled form of the verification write gate (see
+// verif_c05_hook.go, build tag verif). It does nothing and is inlined away.
+func verifC05Write(h *leveldb.DB, op string, key []byte, n int) {}
